@@ -58,6 +58,8 @@ func costFor(o *stressOpts, rng *lab.RNG, key int) int64 {
 		return 1
 	case "key":
 		return lab.KeyCost(key)
+	case "keyskew":
+		return lab.KeyCostSkew(key)
 	case "zero":
 		return 0
 	case "random":
@@ -274,7 +276,7 @@ func checkQuiescent(l *lab.Lab, o *stressOpts, getsSinceClear, getsTotal, setsFa
 				break
 			}
 		}
-		if o.CostMode == "key" || o.CostMode == "one" || o.CostMode == "zero" {
+		if o.CostMode == "key" || o.CostMode == "one" || o.CostMode == "zero" || o.CostMode == "keyskew" {
 			// shadow accounting: every accounted key's cost must be the fixed cost of that key (+ internal overhead)
 			for h, c := range s.KeyCosts {
 				ki, ok := l.HashIdx[h]
@@ -285,6 +287,9 @@ func checkQuiescent(l *lab.Lab, o *stressOpts, getsSinceClear, getsTotal, setsFa
 				want := int64(1)
 				if o.CostMode == "key" || o.CostMode == "zero" {
 					want = lab.KeyCost(ki)
+				}
+				if o.CostMode == "keyskew" {
+					want = lab.KeyCostSkew(ki)
 				}
 				if !o.Cfg.IgnoreInternalCost {
 					want += ristretto.VerifItemSize()
